@@ -16,9 +16,11 @@ import MorphKgc.Gen.CoreFuncs
 import MorphKgc.Gen.Canon
 import MorphKgc.Gen.Escape
 import MorphKgc.Lemmas.Template
+import MorphKgc.Model.Eval
 namespace Props.CoreFuncs
 open Py Model
-open Gen.Core (RML_IRI RML_LITERAL RML_BLANK_NODE RML_TEMPLATE RML_REFERENCE RML_CONSTANT XSD_BOOLEAN XSD_DATETIME XSD_INTEGER)
+open Gen.Core (RML_IRI RML_LITERAL RML_BLANK_NODE RML_TEMPLATE RML_REFERENCE RML_CONSTANT XSD_BOOLEAN XSD_DATETIME XSD_INTEGER
+  RML_EXECUTION RML_LANGUAGE_MAP RML_DATATYPE_MAP RML_DEFAULT_GRAPH NQUADS)
 
 theorem aux_eq : Model.auxString = Gen.Core.AUXILIAR_UNIQUE_REPLACING_STRING := by decide
 
@@ -45,10 +47,13 @@ def ttIri : Option TermType → Str
   | some .star => "http://w3id.org/rml/RDFstarTriple".toList
   | none => []
 
-def primsOf (cfg : TermCfg) : Gen.Core.Prims where
+def primsOf (cfg : TermCfg) (fmt : Str) : Gen.Core.Prims where
   onlyPrintable := cfg.nonPrintable.isSome
   safe := cfg.safe
   removeNonPrintable := fun v => match cfg.nonPrintable with | some np => v.filter (fun c => !np c) | none => v
+  outputFormat := fmt
+  /- function executions are outside the fragment of `Model.rowTriple` (C14's domain) -/
+  fnml := fun _ _ _ _ _ => .error (.keyError [])
 
 def canonD (dt v : Str) : Str := match canonFor Gen.canonSiteTemplate.ladder dt v with | .ok r => r | .error _ => v
 
@@ -108,8 +113,8 @@ theorem chain_eq (v : Str) : applyChain Gen.escapeChainTemplate v =
 
 def npF (cfg : TermCfg) (v : Str) : Str := match cfg.nonPrintable with | some np => v.filter (fun c => !np c) | none => v
 
-theorem np_eq (cfg : TermCfg) (v : Str) :
-    (if (primsOf cfg).onlyPrintable = true then (primsOf cfg).removeNonPrintable v else v) = npF cfg v := by
+theorem np_eq (cfg : TermCfg) (fmt : Str) (v : Str) :
+    (if (primsOf cfg fmt).onlyPrintable = true then (primsOf cfg fmt).removeNonPrintable v else v) = npF cfg v := by
   obtain ⟨safe, np, ch, cn⟩ := cfg
   cases np <;> rfl
 
@@ -117,9 +122,9 @@ theorem safe_if (safe w : Str) : (if safe ≠ [] then pctEncode safe w else pctE
   by_cases h : safe = [] <;> simp [h]
 
 /-- the per-reference value transformation of the translated loop body is `Model.transformValue` -/
-theorem body_eq (cfg : TermCfg) (h : FromSource cfg) (kind : MapType)
+theorem body_eq (cfg : TermCfg) (fmt : Str) (h : FromSource cfg) (kind : MapType)
     (tt : Option TermType) (pos alias datatype : Str) (row : Str → Option Str) (refs : List Str) (r tpl acc rr : Str) (sp : List Str) :
-    Gen.Core.materialize_template.body0 (primsOf cfg) row (kindIri kind) pos alias (ttIri tt) datatype refs r tpl acc rr sp
+    Gen.Core.materialize_template.body0 (primsOf cfg fmt) row (kindIri kind) pos alias (ttIri tt) datatype refs r tpl acc rr sp
       = match row (alias ++ r) with
         | none => .error (.keyError (alias ++ r))
         | some v =>
@@ -133,7 +138,7 @@ theorem body_eq (cfg : TermCfg) (h : FromSource cfg) (kind : MapType)
     obtain ⟨hch, hcan⟩ := h
     simp only [bind, Except.bind, pure, Except.pure]
     simp only [np_eq, strip_tt, tt_iri, tt_lit, kind_tpl]
-    have hs : (primsOf cfg).safe = cfg.safe := rfl
+    have hs : (primsOf cfg fmt).safe = cfg.safe := rfl
     rw [hs]
     simp only [safe_if]
     have htv : ∀ b, transformValue cfg b tt datatype v = (match tt with
@@ -152,10 +157,10 @@ theorem body_eq (cfg : TermCfg) (h : FromSource cfg) (kind : MapType)
 def aliasErr (alias : Str) : MatErr → MatErr
   | .keyError r => .keyError (alias ++ r)
 
-theorem loop_eq (cfg : TermCfg) (h : FromSource cfg) (kind : MapType) (tt : Option TermType) (pos alias datatype : Str)
+theorem loop_eq (cfg : TermCfg) (fmt : Str) (h : FromSource cfg) (kind : MapType) (tt : Option TermType) (pos alias datatype : Str)
     (row : Str → Option Str) (refs0 : List Str) :
     ∀ (refs : List Str) (tpl acc rr : Str) (sp : List Str),
-      (Gen.Core.materialize_template.loop0 (primsOf cfg) row (kindIri kind) pos alias (ttIri tt) datatype refs0 refs (tpl, acc, rr, sp)).map
+      (Gen.Core.materialize_template.loop0 (primsOf cfg fmt) row (kindIri kind) pos alias (ttIri tt) datatype refs0 refs (tpl, acc, rr, sp)).map
           (fun s => s.2.1 ++ s.1)
         = (templateLoop cfg (kind = .template) tt datatype (fun r => row (alias ++ r)) refs tpl acc).mapError (aliasErr alias) := by
   intro refs
@@ -165,7 +170,7 @@ theorem loop_eq (cfg : TermCfg) (h : FromSource cfg) (kind : MapType) (tt : Opti
     intro tpl acc rr sp
     unfold Gen.Core.materialize_template.loop0 templateLoop
     simp only [bind, Except.bind]
-    rw [body_eq cfg h]
+    rw [body_eq cfg fmt h]
     cases hrow : row (alias ++ r) with
     | none => rfl
     | some v => exact ih _ _ _ _
@@ -183,14 +188,14 @@ theorem wrap_eq (tt : Option TermType) (s : Str) :
 /-- **`_materialize_template` as translated from the source = `Model.materializeTemplate`**, for every configuration whose escape
     chain / canonicalisation are the generated ones, every term-map kind the function is called with, every term type, template,
     datatype, alias and row. -/
-theorem materialize_template_eq (cfg : TermCfg) (h : FromSource cfg) (kind : MapType) (value : Str) (tt : Option TermType) (pos alias datatype : Str) (row : Str → Option Str) :
-    Gen.Core.materialize_template (primsOf cfg) row value (kindIri kind) pos alias (ttIri tt) datatype
+theorem materialize_template_eq (cfg : TermCfg) (fmt : Str) (h : FromSource cfg) (kind : MapType) (value : Str) (tt : Option TermType) (pos alias datatype : Str) (row : Str → Option Str) :
+    Gen.Core.materialize_template (primsOf cfg fmt) row value (kindIri kind) pos alias (ttIri tt) datatype
       = (Model.materializeTemplate cfg kind value tt datatype alias row).mapError (aliasErr alias) := by
   unfold Gen.Core.materialize_template Model.materializeTemplate
   simp only [kind_ref, strip_tt, refs_eq]
   have happ : ∀ a t : Str, (if t ≠ [] then a ++ t else a) = a ++ t := by
     intro a t; by_cases ht : t = [] <;> simp [ht]
-  have hl := loop_eq cfg h kind tt pos alias datatype row
+  have hl := loop_eq cfg fmt h kind tt pos alias datatype row
     (getReferencesInTemplate (if kind = MapType.reference then "{".toList ++ value ++ "}".toList else value))
     (getReferencesInTemplate (if kind = MapType.reference then "{".toList ++ value ++ "}".toList else value))
     (replace (replace (if kind = MapType.reference then "{".toList ++ value ++ "}".toList else value)
@@ -236,11 +241,11 @@ example : FromSource { escapeChain := Gen.escapeChainTemplate, canon := canonD }
 /-- **Transfer.** What `_materialize_template` as written in /repo computes for a template-valued term map with escape-free
     syntax is the substitution of the transformed cell values into the template (the statement of `Lemmas.Template` moved from the
     model to the translated source). -/
-theorem translated_template_is_substitution (cfg : TermCfg) (h : FromSource cfg) (t : Spec.Tpl) (hw : WFTpl t = true)
+theorem translated_template_is_substitution (cfg : TermCfg) (fmt : Str) (h : FromSource cfg) (t : Spec.Tpl) (hw : WFTpl t = true)
     (tt : Option TermType) (pos dt : Str) (row : Str → Option Str) (f : Str → Str) (hrow : ∀ p ∈ t.parts, row p.1 = some (f p.1)) :
-    Gen.Core.materialize_template (primsOf cfg) row t.render RML_TEMPLATE pos [] (ttIri tt) dt
+    Gen.Core.materialize_template (primsOf cfg fmt) row t.render RML_TEMPLATE pos [] (ttIri tt) dt
       = .ok (wrapTerm tt (t.pre ++ t.parts.flatMap fun p => transformValue cfg true tt dt (f p.1) ++ p.2)) := by
-  have := materialize_template_eq cfg h .template t.render tt pos [] dt row
+  have := materialize_template_eq cfg fmt h .template t.render tt pos [] dt row
   rw [show kindIri .template = RML_TEMPLATE from rfl] at this
   rw [this, materializeTemplate_template cfg t hw tt dt row f hrow]
   rfl
@@ -249,6 +254,136 @@ theorem translated_template_is_substitution (cfg : TermCfg) (h : FromSource cfg)
     with an escaped brace (executed by the kernel: a test of the translation, not the theorem) -/
 example : Gen.Core.get_references_in_template "http://e/\\{x\\}/{a}/{b c}".toList = ["a".toList, "b c".toList] ∧
     Gen.Core.get_invariant_of_template "http://e/\\{x\\}/{a}/{b c}".toList = some "http://e/\\{x\\}/".toList := by
+  decide +kernel
+
+
+/-! ## `_materialize_rml_rule_terms` and the triple assembly of `_materialize_rml_rule` -/
+
+/-- one row of `rml_df` as the translated code reads it, for a model rule whose object map is (`objKind`, `objValue`)
+    (`_materialize_rml_rule` overwrites the object map of a referencing rule by the parent's subject map) -/
+def pyRuleOf (r : Rule) (objKind : MapType) (objValue : Str) : Gen.Core.PyRule where
+  subject_map_type := kindIri r.subjectMapType
+  subject_map_value := r.subjectMapValue
+  subject_termtype := ttIri (some r.subjectTermtype)
+  predicate_map_type := kindIri r.predicateMapType
+  predicate_map_value := r.predicateMapValue
+  object_map_type := kindIri objKind
+  object_map_value := objValue
+  object_termtype := ttIri (some r.objectTermtype)
+  lang_datatype := match r.langDatatype with | some .languageMap => RML_LANGUAGE_MAP | some .datatypeMap => RML_DATATYPE_MAP | none => []
+  lang_datatype_map_type := match r.langDatatypeMapType with | some mt => kindIri mt | none => []
+  lang_datatype_map_value := r.langDatatypeMapValue
+  graph_map_type := kindIri r.graphMapType
+  graph_map_value := r.graphMapValue
+
+def fmtName : OutFmt → Str
+  | .nquads => NQUADS
+  | .ntriples => "N-TRIPLES".toList
+
+/-- `_materialize_rml_rule_terms` followed by the triple assembly of `_materialize_rml_rule`, as translated -/
+def genRowTriple (prims : Gen.Core.Prims) (row : Str → Option Str) (rule : Gen.Core.PyRule) (alias : Str) (nest : Nat) : Except MatErr Str := do
+  let (s, p, o) ← Gen.Core.materialize_rml_rule_terms prims row rule alias
+  Gen.Core.assemble_triple prims row rule nest s p o
+
+def Plain (k : MapType) : Prop := k = .constant ∨ k = .template ∨ k = .reference
+
+theorem plain_iff (k : MapType) : (kindIri k = RML_TEMPLATE ∨ kindIri k = RML_CONSTANT ∨ kindIri k = RML_REFERENCE) ↔ Plain k := by
+  unfold Plain; cases k <;> decide
+
+theorem not_exec (k : MapType) (h : Plain k) : kindIri k ≠ RML_EXECUTION := by
+  rcases h with rfl | rfl | rfl <;> decide
+
+/-- rules of the fragment `Model.rowTriple` covers: plain term maps everywhere, a language / datatype map has a kind -/
+structure PlainRule (r : Rule) (objKind : MapType) : Prop where
+  s : Plain r.subjectMapType
+  p : Plain r.predicateMapType
+  o : Plain objKind
+  g : Plain r.graphMapType
+  ld : ∀ x, r.langDatatype = some x → ∃ mt, r.langDatatypeMapType = some mt ∧ Plain mt
+
+theorem toOption_mapError {ε ε' α} (f : ε → ε') (x : Except ε α) : (x.mapError f).toOption = x.toOption := by
+  cases x <;> rfl
+
+theorem mt_iri (cfg : TermCfg) (fmt : Str) (h : FromSource cfg) (kind : MapType) (value pos alias dt : Str) (row : Str → Option Str) :
+    Gen.Core.materialize_template (primsOf cfg fmt) row value (kindIri kind) pos alias RML_IRI dt
+      = (Model.materializeTemplate cfg kind value (some .iri) dt alias row).mapError (aliasErr alias) :=
+  materialize_template_eq cfg fmt h kind value (some .iri) pos alias dt row
+
+theorem mt_none (cfg : TermCfg) (fmt : Str) (h : FromSource cfg) (kind : MapType) (value pos alias dt : Str) (row : Str → Option Str) :
+    Gen.Core.materialize_template (primsOf cfg fmt) row value (kindIri kind) pos alias [] dt
+      = (Model.materializeTemplate cfg kind value none dt alias row).mapError (aliasErr alias) :=
+  materialize_template_eq cfg fmt h kind value none pos alias dt row
+
+theorem fmt_nquads (f : OutFmt) : (fmtName f = NQUADS) ↔ f = .nquads := by cases f <;> decide
+
+/-- **The row-level pipeline as translated from the source = `Model.rowTriple`** (same statement, or both fail), for every rule of the
+    plain fragment, row, alias and both formats. -/
+theorem rowTriple_eq (env : Env) (h : FromSource env.cfg) (hg : env.defaultGraph = RML_DEFAULT_GRAPH) (r : Rule) (objKind : MapType)
+    (objValue alias : Str) (hp : PlainRule r objKind) (ρ : SRow) :
+    (genRowTriple (primsOf env.cfg (fmtName env.fmt)) (fun c => lookup c ρ) (pyRuleOf r objKind objValue) alias 0).toOption
+      = (Model.rowTriple env r objKind objValue alias ρ).toOption := by
+  obtain ⟨hs, hpp, ho, hgp, hld⟩ := hp
+  have hlm : RML_LANGUAGE_MAP ≠ RML_DATATYPE_MAP := by decide
+  have hl0 : ([] : Str) ≠ RML_LANGUAGE_MAP := by decide
+  have hd0 : ([] : Str) ≠ RML_DATATYPE_MAP := by decide
+  have hout : (primsOf env.cfg (fmtName env.fmt)).outputFormat = fmtName env.fmt := rfl
+  have hne := not_exec _ hgp
+  unfold genRowTriple Gen.Core.materialize_rml_rule_terms Gen.Core.assemble_triple Model.rowTriple pyRuleOf litDatatype
+  cases hL : r.langDatatype with
+  | none =>
+    simp only [plain_iff, hs, hpp, ho, hgp, if_true, true_and, materialize_template_eq _ _ h, mt_iri _ _ h, hout, fmt_nquads, ← hg,
+      hl0, hd0, if_false]
+    generalize materializeTemplate env.cfg r.subjectMapType r.subjectMapValue (some r.subjectTermtype) [] [] (fun c => lookup c ρ) = S
+    generalize materializeTemplate env.cfg r.predicateMapType r.predicateMapValue (some .iri) [] [] (fun c => lookup c ρ) = P
+    generalize materializeTemplate env.cfg objKind objValue (some r.objectTermtype) r.langDatatypeMapValue alias (fun c => lookup c ρ) = O
+    generalize materializeTemplate env.cfg r.graphMapType r.graphMapValue (some .iri) [] [] (fun c => lookup c ρ) = G
+    cases S <;> cases P <;> cases O <;> cases G <;> cases env.fmt <;>
+      by_cases hdg : r.graphMapValue = env.defaultGraph <;>
+      simp [Except.mapError, Except.toOption, bind, Except.bind, pure, Except.pure, hdg, hne]
+  | some x =>
+    obtain ⟨mt, hmt, hpl⟩ := hld x hL
+    rw [hmt]
+    cases x
+    · simp only [plain_iff, hs, hpp, ho, hgp, hpl, if_true, true_and, materialize_template_eq _ _ h, mt_iri _ _ h, mt_none _ _ h, hout,
+        fmt_nquads, ← hg]
+      generalize materializeTemplate env.cfg r.subjectMapType r.subjectMapValue (some r.subjectTermtype) [] [] (fun c => lookup c ρ) = S
+      generalize materializeTemplate env.cfg r.predicateMapType r.predicateMapValue (some .iri) [] [] (fun c => lookup c ρ) = P
+      generalize materializeTemplate env.cfg objKind objValue (some r.objectTermtype) r.langDatatypeMapValue alias (fun c => lookup c ρ) = O
+      generalize materializeTemplate env.cfg r.graphMapType r.graphMapValue (some .iri) [] [] (fun c => lookup c ρ) = G
+      generalize materializeTemplate env.cfg mt r.langDatatypeMapValue none [] [] (fun c => lookup c ρ) = L
+      cases S <;> cases P <;> cases O <;> cases L <;> cases G <;> cases env.fmt <;>
+        by_cases hdg : r.graphMapValue = env.defaultGraph <;>
+        simp [Except.mapError, Except.toOption, bind, Except.bind, pure, Except.pure, hdg, hne]
+    · simp only [plain_iff, hs, hpp, ho, hgp, hpl, if_true, true_and, materialize_template_eq _ _ h, mt_iri _ _ h, mt_none _ _ h, hout,
+        fmt_nquads, ← hg, hlm.symm, if_false]
+      generalize materializeTemplate env.cfg r.subjectMapType r.subjectMapValue (some r.subjectTermtype) [] [] (fun c => lookup c ρ) = S
+      generalize materializeTemplate env.cfg r.predicateMapType r.predicateMapValue (some .iri) [] [] (fun c => lookup c ρ) = P
+      generalize materializeTemplate env.cfg objKind objValue (some r.objectTermtype) r.langDatatypeMapValue alias (fun c => lookup c ρ) = O
+      generalize materializeTemplate env.cfg r.graphMapType r.graphMapValue (some .iri) [] [] (fun c => lookup c ρ) = G
+      generalize materializeTemplate env.cfg mt r.langDatatypeMapValue (some .iri) [] [] (fun c => lookup c ρ) = L
+      cases S <;> cases P <;> cases O <;> cases L <;> cases G <;> cases env.fmt <;>
+        by_cases hdg : r.graphMapValue = env.defaultGraph <;>
+        simp [Except.mapError, Except.toOption, bind, Except.bind, pure, Except.pure, hdg, hne]
+
+
+/-- the hypotheses of `rowTriple_eq` are satisfiable: the default environment with the generated chain, a rule with a template subject,
+    a reference object with a constant language tag and a template graph map -/
+example : FromSource ({ cfg := { escapeChain := Gen.escapeChainTemplate, canon := canonD } } : Env).cfg ∧
+    ({ cfg := { escapeChain := Gen.escapeChainTemplate, canon := canonD } } : Env).defaultGraph = RML_DEFAULT_GRAPH ∧
+    PlainRule { subjectMapType := .template, predicateMapType := .constant, objectMapType := .reference, graphMapType := .template,
+                langDatatype := some .languageMap, langDatatypeMapType := some .constant } .reference :=
+  ⟨⟨rfl, rfl⟩, by decide, ⟨.inr (.inl rfl), .inl rfl, .inr (.inr rfl), .inr (.inl rfl),
+    fun x hx => ⟨.constant, rfl, .inl rfl⟩⟩⟩
+
+/-- executed by the kernel on one row (a test of the translation): N-QUADS, template graph map, language tag -/
+example :
+    genRowTriple (primsOf { escapeChain := Gen.escapeChainTemplate, canon := canonD } NQUADS)
+      (fun c => lookup c [("id".toList, "a b".toList), ("n".toList, "x\"y".toList)])
+      (pyRuleOf { subjectMapType := .template, subjectMapValue := "http://e/{id}".toList, predicateMapType := .constant,
+                  predicateMapValue := "http://e/p".toList, objectTermtype := .literal, graphMapType := .template,
+                  graphMapValue := "http://g/{id}".toList, langDatatype := some .languageMap, langDatatypeMapType := some .constant,
+                  langDatatypeMapValue := "en".toList } .reference "n".toList) [] 0
+      = .ok "<http://e/a%20b> <http://e/p> \"x\\\"y\"@en <http://g/a%20b>".toList := by
   decide +kernel
 
 end Props.CoreFuncs
